@@ -1911,6 +1911,87 @@ fn device_roundtrip_oracle(rng: &mut Rng, st: &mut Stats) {
     }
 }
 
+/// Deterministic oversized PairPosFormat1 tables whose first-glyph coverage (format 2) is made of consecutive runs
+/// that END on every index in a window around each split point: pass 1 compiles a contiguous table and learns the
+/// split points from the compiled pieces, pass 2 renumbers the first glyphs with gaps after split-2 .. split+2.
+fn pp1_run_boundary_cases(rng: &mut Rng, st: &mut Stats, cw: &mut CaseWriter, pool: &[Dev], thorough: bool) {
+    let shapes: &[(usize, usize)] = if thorough { &[(800, 40), (900, 40), (700, 60), (500, 100), (860, 33)] } else { &[(800, 40), (700, 60)] };
+    for (n1, n2) in shapes {
+        let (n1, n2) = (*n1, *n2);
+        let spec_for = |firsts: &[u16]| -> Spec {
+            let mut pairs = vec![];
+            for (i, g1) in firsts.iter().enumerate() {
+                for j in 0..n2 {
+                    pairs.push((*g1, 5000 + j as u16 * 2, mk_val(0, (i * 4001 + j) as i64, pool), Val::default()));
+                }
+            }
+            Spec::Pair { pairs, classes: vec![] }
+        };
+        // pass 1: contiguous first glyphs, learn the split points (cumulative pair-set counts of the pieces)
+        let contiguous: Vec<u16> = (1..=n1 as u16).collect();
+        let ls = LookupSpec { flags: 0, mfs: None, spec: spec_for(&contiguous) };
+        let ls2 = ls.clone();
+        let splits: Vec<usize> = match catch(move || {
+            let mut vs = VariationStoreBuilder::new(1);
+            let l = build_lookup(&ls2, &mut vs);
+            let gpos = wgpos::Gpos::new(Default::default(), Default::default(), wlayout::LookupList::new(vec![l]));
+            let bytes = write_fonts::dump_table(&gpos).unwrap();
+            let g = rgpos::Gpos::read(FontData::new(&bytes)).unwrap();
+            let lk = decode_lookup(&g.lookup_list().unwrap().lookups().get(0).unwrap());
+            let mut acc = 0usize;
+            let mut v = vec![];
+            for s in &lk.subs {
+                if let Sub::PP1 { sets, .. } = s {
+                    acc += sets.len();
+                    v.push(acc);
+                }
+            }
+            v.pop(); // the last one is the total
+            v
+        }) {
+            Ok(v) => v,
+            Err(e) => {
+                st.oracle_failure(json!({"key": format!("pp1-runs-{}x{}:pass1", n1, n2), "what": "compiling the contiguous table failed", "err": e}));
+                continue;
+            }
+        };
+        if splits.is_empty() {
+            st.count("pp1_runs_not_split");
+            continue;
+        }
+        st.count("pp1_runs_tables_split");
+        run_gpos_case(&GposCase { key: format!("pp1-runs-{}x{}-contiguous", n1, n2), lookups: vec![ls] }, rng, st, cw, thorough);
+        // pass 2: a gap AFTER index i means the run ends on index i
+        let variants: Vec<(String, Vec<i64>)> = vec![
+            ("end-at-split".into(), vec![0]),
+            ("end-at-split-1".into(), vec![-1]),
+            ("end-at-split+1".into(), vec![1]),
+            ("end-at-split-2".into(), vec![-2]),
+            ("window".into(), vec![-2, -1, 0, 1, 2]),
+            ("pair".into(), vec![-1, 0]),
+        ];
+        for (name, offs) in variants {
+            let mut gaps: std::collections::BTreeSet<usize> = Default::default();
+            for s in &splits {
+                for o in &offs {
+                    let i = *s as i64 + o;
+                    if i >= 0 && (i as usize) < n1 - 1 {
+                        gaps.insert(i as usize);
+                    }
+                }
+            }
+            let mut firsts = vec![];
+            let mut g = 1u16;
+            for i in 0..n1 {
+                firsts.push(g);
+                g += if gaps.contains(&i) { 2 + (i % 3) as u16 } else { 1 };
+            }
+            let case = GposCase { key: format!("pp1-runs-{}x{}-{}", n1, n2, name), lookups: vec![LookupSpec { flags: 0, mfs: None, spec: spec_for(&firsts) }] };
+            run_gpos_case(&case, rng, st, cw, thorough);
+        }
+    }
+}
+
 fn main() {
     silence_panics();
     let args: Vec<String> = std::env::args().collect();
@@ -2070,6 +2151,7 @@ fn main() {
     for c in &cases {
         run_gpos_case(c, &mut rng, &mut st, &mut cw, thorough);
     }
+    pp1_run_boundary_cases(&mut rng, &mut st, &mut cw, &pool, thorough);
 
     shared_subtable_family(&mut rng, &mut st, thorough);
     device_roundtrip_oracle(&mut rng, &mut st);
